@@ -139,6 +139,9 @@ impl Board {
     }
 
     fn parse_castle_rights(board: &mut Board, s: &str, shredder: bool) -> Result<(), ()> {
+        if s.is_empty() {
+            return Err(());
+        }
         if s != "-" {
             for c in s.chars() {
                 let color = if c.is_ascii_uppercase() {
